@@ -413,7 +413,15 @@ let () =
                        let bits = Int64.of_string ("0x" ^ got) in
                        let fv = Int64.float_of_bits bits in
                        let ex = Z.to_float exact in
-                       if Z.numbits exact <= 53 && fv <> ex then
+                       if n <= 53 then (
+                         (* at most 53 levels (theorem C12_sat_f64, coq/DD/SatF64Proofs.v): the result is the correctly
+                            rounded exact count for every vars: the count itself below 2^1024 (it is ones * 2^(vars-n)
+                            with ones <= 2^n, hence representable), +inf from there on *)
+                         stat "c12_f64_exact_checked" 1;
+                         let want = if Z.numbits exact > 1024 then infinity else ex in
+                         if fv <> want then
+                           fail p.pstep "C12" "prop" (Printf.sprintf "sat_count(%d) as f64 = %h, correctly rounded exact count %h (%s)" vars fv want (Z.to_string exact)))
+                       else if Z.numbits exact <= 53 && fv <> ex then
                          fail p.pstep "C12" "prop" (Printf.sprintf "sat_count(%d) as f64 = %h, exact %s" vars fv (Z.to_string exact))
                        else if abs_float (fv -. ex) > 1e-9 *. abs_float ex then
                          fail p.pstep "C12" "prop" (Printf.sprintf "sat_count(%d) as f64 = %h, exact %s" vars fv (Z.to_string exact))))
